@@ -7,7 +7,8 @@ from props.graphfacts import conclude, replay, run_graph_property  # noqa: F401
 THEOREMS = ["Rva.liveNode_stable", "Rva.live_path_sound", "Rva.live_edge", "Rva.live_transfer", "Rva.mem_unionOver",
             "Rva.liveNode_below", "Rva.liveSweep_below", "Rva.liveness_least", "Rva.liveNode_noop",
             "Rva.liveness_fixpoint", "Rva.liveness_least_solution", "Rva.preSol_top",
-            "Rva.ecall_table_matches_rars"]
+            "Rva.ecall_table_matches_rars",
+            "Rva.live_path_sound_ext"]
 
 
 def oracle(src, blk, rng):
@@ -31,7 +32,7 @@ def oracle(src, blk, rng):
 
 
 def run(res, tier, seed):
-    proof_ok = proof_stage(res, "Rva.Proofs.C02Least", THEOREMS, extra_modules=["Rva.Proofs.C02", "Rva.Proofs.Tables"])
+    proof_ok = proof_stage(res, "Rva.Proofs.C02Least", THEOREMS, extra_modules=["Rva.Proofs.C02", "Rva.Proofs.C02Paths", "Rva.Proofs.Tables"])
     res.cov["rule"] = ("generated programs + corpus; the real live-in/live-out sets are compared with an "
                        "independent least-fixed-point solver of the documented equations, and with 3 concrete "
                        "executions per program (every register read must be live at every point since its "
